@@ -6,7 +6,7 @@
    spec_udp_bytes / spec_tcp_bytes, written from RFC 7252 / RFC 8323). *)
 From Coq Require Import ZArith List Bool.
 From GoCoap Require Import Base.Bytes Gen.OptionDefs Gen.TcpConsts
-     Codec.Options Codec.Udp Codec.Tcp Codec.Pool Codec.Spec Codec.ProofsOpt Codec.ProofsC01 Codec.ProofsC02 Codec.ProofsC01Stream.
+     Codec.Options Codec.Udp Codec.Tcp Codec.Pool Codec.Spec Codec.SpecCode Codec.ProofsOpt Codec.ProofsC01 Codec.ProofsC02 Codec.ProofsC01Stream Codec.ProofsC01Code.
 Import ListNotations.
 Open Scope Z_scope.
 
@@ -139,6 +139,44 @@ Proof.
 Qed.
 Print Assumptions C01_values_verbatim.
 
+(* "every code byte", datagram framing (round 3).  Datagram framing has ONE option registry
+   (RFC 7252 section 5.10 / 12.2); the option number spaces RFC 8323 section 5 gives to the
+   signalling codes 7.01-7.05 exist in stream framing only.  So the datagram preconditions
+   do not depend on the code: a well-formed message stays well-formed with every code byte
+   c -- 225..229 included --, its encoding differs in that one byte only ([put_code]: offset 1),
+   and Decode (direct, and pooled from any initial option capacity) of the encoding with
+   that byte set to c returns the message with code c: all options, judged by the CoAP
+   registry alone (a 4-byte ETag or a long option 2 survive under code 7.01), all bytes consumed. *)
+Theorem C01_udp_every_code : forall m cap c, wf_udp m = true -> blen (m_opts m) <= cap -> 0 <= c <= 255 ->
+  wf_udp (with_code m c) = true /\
+  spec_udp_bytes (with_code m c) = put_code (spec_udp_bytes m) c /\
+  udp_decode cap (put_code (spec_udp_bytes m) c) = Ok (with_code m c, blen (spec_udp_bytes m)) /\
+  (forall cap0, 0 <= cap0 -> exists fc,
+     pool_decode (pool_fuel (put_code (spec_udp_bytes m) c)) udp_decode cap0 (put_code (spec_udp_bytes m) c) =
+       Ok (with_code m c, blen (spec_udp_bytes m), fc)).
+Proof.
+  intros m cap c Hwf Hcap Hc. split; [apply wf_udp_with_code; assumption|]. split; [apply spec_udp_with_code|].
+  split; [apply udp_decode_any_code; assumption|].
+  intros cap0 Hc0. rewrite <- spec_udp_with_code, <- (spec_udp_with_code_len m c).
+  apply udp_pool_roundtrip; [apply wf_udp_with_code; assumption|exact Hc0].
+Qed.
+Print Assumptions C01_udp_every_code.
+
+(* The datagram decoder does not look at the Code field at all: on EVERY byte string
+   (malformed ones included) overwriting that byte changes nothing but the code of the
+   result -- same options kept and dropped, same payload, same count, same error.  In
+   particular it cannot select an option table by code. *)
+Theorem C01_udp_decode_ignores_code : forall cap data c,
+  udp_decode cap (put_code data c) =
+    match udp_decode cap data with
+    | Ok (m, n) => Ok (with_code m c, n)
+    | Err e => Err e
+    | Panic => Panic
+    | Fuel => Fuel
+    end.
+Proof. exact udp_decode_put_code. Qed.
+Print Assumptions C01_udp_decode_ignores_code.
+
 (* Pooled path: MarshalWithEncoder returns exactly the encoding, and UnmarshalWithDecoder
    (copy + capacity-retry loop, from ANY initial option capacity >= 0) gives the message
    back, consuming all bytes. *)
@@ -231,3 +269,16 @@ Example C01_leading_zero_and_stream_inhabited :
   tcp_frames 3 4 (stream_bytes [m; m2] ++ firstn 3 (spec_tcp_bytes m)) =
     ([(tcp_view m, 18); (tcp_view m2, 4)], SErr EShortRead, firstn 3 (spec_tcp_bytes m)).
 Proof. vm_compute. repeat split; intro; discriminate. Qed.
+
+(* non-vacuity of C01_udp_every_code, and the contrast with stream framing: option 2 with
+   five bytes and a four-byte ETag are inside the datagram preconditions under code 7.01
+   (225) and come back from the datagram decoder; the same message is OUTSIDE the stream
+   preconditions (CSM: option 2 at most 4 bytes, option 4 empty), where the stream decoder
+   drops both options *)
+Example C01_signal_code_datagram_inhabited :
+  let os := [(2, [1; 2; 3; 4; 5]); (4, [222; 173; 190; 239]); (11, [97])] in
+  let m c os := {| m_tok := [7]; m_code := c; m_opts := os; m_pay := [1]; m_mid := 4711; m_typ := 1 |} in
+  wf_udp (m 225 os) = true /\ wf_tcp messageMaxLen (m 225 os) = false /\ wf_tcp messageMaxLen (m 69 os) = true /\
+  udp_decode 3 (put_code (spec_udp_bytes (m 69 os)) 225) = Ok (m 225 os, blen (spec_udp_bytes (m 69 os))) /\
+  tcp_decode 3 (spec_tcp_bytes (m 225 os)) = Ok (tcp_view (m 225 [(11, [97])]), blen (spec_tcp_bytes (m 225 os))).
+Proof. vm_compute. repeat split. Qed.
